@@ -122,6 +122,12 @@ func (s *Service) Init(ctx context.Context) error {
 	go s.notificatior()
 	go s.pipesCleaner(time.Minute, 10*time.Minute)
 
+	// a clean stop may have left a pipe behind its sources (a notified batch not copied yet): every loaded pipe
+	// looks at the sources it has a position for and starts a worker where that position is behind the stored data
+	for _, pp := range s.ppipes {
+		pp.catchUp(ctx)
+	}
+
 	err = s.ensurePipesAtStart()
 	if err != nil {
 		// Shutdown if could not create the pipes
